@@ -128,20 +128,30 @@ def run(tier):
             tmpls = [tmpls[rnd.randrange(len(tmpls))]] if rnd.random() < 0.9 else tmpls
         for t in tmpls:
             bad.append(("regtypo", t % c, {"reg": r, "typo": c, "tmpl": t, "first": c[0]}))
+    # invalid memory expressions, under every class of instruction that takes a memory operand (each encoder path has its
+    # own copy of the validity checks - seeded change C10-sp-index-accepted-on-O-path was missed while only lea/mov were used)
+    MEMT = ["lea rax, %s", "mov rdx, %s", "mov %s, rdx", "add qword %s, 5", "jmp %s", "call %s", "push qword %s", "inc dword %s", "vpaddb ymm1, ymm2, %s",
+            "paddb xmm1, %s", "movq %s, xmm1", "bextr rax, %s, rbx", "mulx rax, rbx, %s", "sete %s", "shl qword %s, cl", "imul rax, %s, 5", "prefetcht0 %s", "movntq %s, mm1",
+            "vmovupd %s, ymm3", "shld %s, rax, 5"]
     for s in (0, 3, 5, 6, 7, 9, 10, 16, 42):
         for idx in ("rcx", "r9", "ecx"):
             base = "rbx" if idx[0] == "r" else "ebx"
-            for t in ("lea rax, [%s+%s*%d]" % (base, idx, s), "lea rax, [%s+%d*%s]" % (base, s, idx), "lea rax, [%d*%s]" % (s, idx), "mov rdx, [%s+%s*%d+8]" % (base, idx, s),
-                      "vpaddb xmm1, xmm2, [%s+%d*%s]" % (base, s, idx)):
-                bad.append(("scale", t, {"scale": s, "index": idx}))
+            for e in ("[%s+%s*%d]" % (base, idx, s), "[%s+%d*%s]" % (base, s, idx), "[%d*%s]" % (s, idx), "[%s+%s*%d+8]" % (base, idx, s), "[%s+%d*%s-0x100]" % (base, s, idx)):
+                for t in MEMT:
+                    bad.append(("scale", t % e, {"scale": s, "index": idx, "tmpl": t}))
     for sp, fam in (("rsp", R64), ("esp", R32)):
+        exprs = []
         for s in (1, 2, 4, 8):
             for b in fam:
-                bad.append(("spindex", "lea rax, [%s+%s*%d]" % (b, sp, s), {"scale": s, "base": b, "sp": sp}))
-                bad.append(("spindex", "lea rax, [%s+%d*%s]" % (b, s, sp), {"scale": s, "base": b, "sp": sp}))
-            bad.append(("spindex", "lea rax, [%d*%s]" % (s, sp), {"scale": s, "base": None, "sp": sp}))
-        bad.append(("spindex", "lea rax, [%s+%s]" % (sp, sp), {"scale": None, "base": sp, "sp": sp}))
-        bad.append(("spindex", "mov rax, [%s+%s+8]" % (sp, sp), {"scale": None, "base": sp, "sp": sp}))
+                exprs.append(("[%s+%s*%d]" % (b, sp, s), s, b))
+                exprs.append(("[%s+%d*%s]" % (b, s, sp), s, b))
+            exprs.append(("[%d*%s]" % (s, sp), s, None))
+            exprs.append(("[%s+%s*%d+0x10]" % (fam[0], sp, s), s, fam[0]))
+        exprs.append(("[%s+%s]" % (sp, sp), None, sp))
+        exprs.append(("[%s+%s+8]" % (sp, sp), None, sp))
+        for e, s, b in exprs:
+            for t in (MEMT if (b in (fam[0], fam[3], fam[9], sp, None)) else MEMT[:1] + [rnd.choice(MEMT)]):
+                bad.append(("spindex", t % e, {"scale": s, "base": b, "sp": sp, "tmpl": t}))
     for t in ["lea rax, [rbx", "lea rax, [rbx+8", "mov rax, [[rbx]]", "mov rax, [rbx]]", "mov [rax, rbx", "mov rax, 5, rbx", "add rax, 1, 2", "mov rax, , rbx", "mov , rax",
               "mov rax,", ", rax", "mov rax,, rbx", "push", "add", "mov rax rbx", "bogus", "bogus rax", "movv rax, rbx", "mo rax, rbx", "rax mov, rbx", "vpaddb ymm1, ymm2, ymm3, ymm4, ymm5",
               "lea rax, []", "lea rax, [+]", "lea rax, [*2]", "lea rax, [rbx*]", "lea rax, [rbx+*2]", "lea rax, [rbx**2]", "mov rax, [rbx+rcx+rdx]", "mov rax, [rbx*2*2]",
